@@ -74,6 +74,10 @@ func genPair(r *vc.Rand) *PairScn {
 		// both start unregistered, A registers, the request waits at B, something happens to that connection
 		sc.RegBefore, sc.Simultaneous, sc.OneSided = [2]bool{false, false}, false, false
 		sc.OneSidedPhase = vc.Pick(r, []string{"cut", "cut", "disconnect:A", "disconnect:B", "restart:B", "restart:A", "none"})
+	} else if sc.Simultaneous && !sc.RegBefore[0] && !sc.RegBefore[1] && r.Chance(3, 4) {
+		// forced simultaneous dials (both register after Start at the same instant and dial at once): the two
+		// connections cross; the cut lands while they are being run and registered
+		sc.EarlyCut = vc.Pick(r, []int{1, 2, 3, 4, 5, 6, 7, 8, 9, 10, 12, 15})
 	} else if sc.Simultaneous && r.Chance(1, 2) {
 		sc.EarlyCut = vc.Pick(r, []int{0, 1, 2, 3, 4, 5, 6, 8, 12, 16, 20, 25})
 	}
